@@ -17,7 +17,8 @@ import numpy as np
 
 from . import core
 from .core import (RaiseSig, SBool, SInt, SObj, SReal, STrueDiv, SU64, Sym, Unsupported, ctx,
-                   is_sym, ite, smax, smin)
+                   is_sym)
+from .core import ite, smax, smin  # noqa: E402
 
 REPO_PKG = "neuroglancer_scripts"
 
@@ -1323,6 +1324,28 @@ class Interp:
         rec(0)
 
     def e_ListComp(self, e, fr):
+        if len(e.generators) == 1 and not e.generators[0].ifs:
+            g = e.generators[0]
+            it = self.eval(g.iter, fr)
+            if isinstance(it, SRange) and it.step == 1:
+                from .symseq import SymSeq
+                interp = self
+                ctx().trust("list comprehension over range(n) with symbolic n: element i is the element expression evaluated at start+i (evaluated lazily, on demand)")
+
+                def item(i):
+                    inner = Frame({}, fr, fr.globals, fr.fn_name, owner=fr.owner, self_obj=fr.self_obj)
+                    interp.assign(g.target, it.start + i, inner)
+                    return interp.eval(e.elt, inner)
+                n = it.stop - it.start
+                return SymSeq(smax(n, 0), item)
+            if getattr(it, "_pyvc_symseq", False):
+                return self.e_GeneratorExp(e, fr)
+            out = []
+            for v in self.iterate(it):
+                inner = Frame({}, fr, fr.globals, fr.fn_name, owner=fr.owner, self_obj=fr.self_obj)
+                self.assign(g.target, v, inner)
+                out.append(self.eval(e.elt, inner))
+            return out
         out = []
         self._comp(e.generators, fr, lambda f: out.append(self.eval(e.elt, f)))
         return out
@@ -1957,6 +1980,15 @@ def m_ceil(interp, v):
         c.assume(core.implies(core.And(core._i(a) >= 0, core._i(a) < (1 << 53), core._i(b) >= 1), res == exact))
         c.note("math.ceil(a/b) == ceil_div(a,b) for 0 <= a < 2^53, b >= 1 (error-bound argument on correctly rounded division); unconstrained otherwise")
         return res
+    if isinstance(v, SLog2Q):
+        # least n with t * 2^n >= a, for -40 <= n <= 80 (a < 2^80); libm accuracy at the boundaries assumed
+        a, t = v.a, v.t
+        c.note("math.ceil(math.log2(a/t)) == least n with t*2^n >= a (exact arithmetic; float accuracy at exact powers assumed, probed natively)")
+        r = core.Z.IntVal(81)
+        for k in range(80, -41, -1):
+            cond = (a.t <= t * (1 << k)) if k >= 0 else (a.t * (1 << -k) <= t)
+            r = core.Z.If(cond, core.Z.IntVal(k), r)
+        return SInt(r)
     if isinstance(v, SLog2):
         n = v.n
         res = c.int("ceil_log2")
@@ -1984,8 +2016,78 @@ class SLog2(Sym):
         self.n = n
 
 
+class SLog2R(Sym):
+    """log2 of a positive real (kept symbolic; only round() is supported)"""
+    __slots__ = ("x",)
+
+    def __init__(self, x):
+        self.x = x
+
+
+class SLog2Q(Sym):
+    """log2(a / t) for a symbolic int a and a concrete positive int t"""
+    __slots__ = ("a", "t")
+
+    def __init__(self, a, t):
+        self.a, self.t = a, t
+
+
+_ROUNDLOG2 = core.Z.Function("round_log2", core.Z.RealSort(), core.Z.IntSort())
+
+
+@model(round)
+def m_round(interp, v, nd=None):
+    c = ctx()
+    if nd is not None:
+        raise Unsupported("round with ndigits")
+    if isinstance(v, SInt):
+        return v
+    if isinstance(v, SLog2R):
+        # D(x) = round(log2 x): only monotonicity and D(1) == 0 are used (sound abstraction of the float
+        # computation: log2 and round are monotone, log2(1.0) == 0.0 exactly)
+        c.trust("round(math.log2(x)) abstracted as a monotone integer function with value 0 at x == 1")
+        d = c.int("delay")
+        c.assume(SBool(d.t == _ROUNDLOG2(v.x.t)))
+        c.assume(core.implies(v.x == 1, d == 0))
+        c.assume(core.implies(v.x >= 1, d >= 0))
+        seen = c.ghost.setdefault("roundlog2", [])
+        for (x2, d2) in seen:
+            c.assume(core.implies(v.x <= x2, d <= d2))
+            c.assume(core.implies(x2 <= v.x, d2 <= d))
+        seen.append((v.x, d))
+        return d
+    if isinstance(v, SLog2E):
+        return v.e
+    if isinstance(v, SReal):
+        from .models_numpy import round_half_even_real
+        r = round_half_even_real(v)
+        return SInt(core.Z.ToInt(r.t))
+    if contains_sym(v):
+        raise Unsupported(f"round of {type(v).__name__}")
+    return round(v)
+
+
+class SLog2E(Sym):
+    """log2(2**e) == e exactly"""
+    __slots__ = ("e",)
+
+    def __init__(self, e):
+        self.e = e
+
+
 @model(_math.log2)
 def m_log2(interp, v):
+    if isinstance(v, SReal):
+        if interp.truth(v <= 0):
+            raise RaiseSig(ValueError("math domain error"))
+        return SLog2R(v)
+    if isinstance(v, STrueDiv) and isinstance(v.a, SInt) and isinstance(v.b, int) and v.b > 0:
+        if interp.truth(v.a <= 0):
+            raise RaiseSig(ValueError("math domain error"))
+        return SLog2Q(v.a, v.b)
+    if isinstance(v, SInt) and core.Z.is_app(v.t) and v.t.decl().name() == "pow2":
+        ctx().trust("math.log2(2**e) == e exactly (e < 1024)")
+        return SLog2E(SInt(v.t.arg(0)))
     if isinstance(v, SInt):
         if interp.truth(v <= 0):
             raise RaiseSig(ValueError("math domain error"))
